@@ -94,6 +94,8 @@ def umad_shape_canonical(ctx):
 
 
 def check(ctx):
+    from .common import shadowing_audit
+    ctx.floor('R11.6', shadowing_audit(ctx, 'R11.6', ('ec_core::operator::mutator::', 'ec_linear::genome::Linear')), 4, 'Mutator / Linear impls of workspace types (shadowing audit)')
     from . import rules_c10
     rules_c10.check_linear_impls(rules_c12._Only(ctx, {"R10.6": "R11.6"}))
     rules_c12.check_with_rate(ctx, "R11.1", None)
